@@ -85,6 +85,20 @@ pub fn run(_args: &[String], out: &mut dyn Write) -> i32 {
                 total += posting.amount.clone();
                 reg.push(format!("({} {} {})", enc(posting.account.as_str()), proc::amount_sx(&posting.amount), proc::amount_sx(&total)));
             }
+            // the register restricted to one account (`okane register FILE ACCOUNT`), for every account that was posted to
+            let mut accts: Vec<String> = Vec::new();
+            for posting in ledger.postings(&ctx, &query::PostingQuery { account: None }) {
+                let a = posting.account.as_str().to_string();
+                if !accts.contains(&a) {
+                    accts.push(a);
+                }
+            }
+            for a in &accts {
+                let ps = ledger.postings(&ctx, &query::PostingQuery { account: Some(a.clone()) });
+                let items: Vec<String> =
+                    ps.iter().map(|p| format!("({} {})", enc(p.account.as_str()), proc::amount_sx(&p.amount))).collect();
+                reg.push(format!("(filtered {} {})", enc(a), items.join(" ")));
+            }
             (format!("({})", rs.join(" ")), format!("({})", reg.join(" ")))
         });
         let (rs, reg) = extra.unwrap_or_else(|m| (format!("(panic {})", enc(&m)), "()".to_string()));
